@@ -8,8 +8,6 @@ package client
 
 import (
 	"io"
-
-	"github.com/dim13/cobs"
 )
 
 func init() {
@@ -18,6 +16,7 @@ func init() {
 	vRegister("HarnessC16Prefix", HarnessC16Prefix)
 	vRegister("HarnessC16Damage", HarnessC16Damage)
 	vRegister("HarnessC16Tight", HarnessC16Tight)
+	vRegister("HarnessC16LongRun", HarnessC16LongRun)
 }
 
 // HarnessC16Tight: as the clean stream, but the caller's buffer is exactly as
@@ -36,9 +35,10 @@ func HarnessC16Tight() {
 		for j, z := 0, vChoose(vParam("nulls", 1)+1); j < z; j++ {
 			dev.stream = append(dev.stream, 0) // idle delimiters on the line
 		}
+		before := len(dev.stream)
 		_, err := cw.Write(p)
 		vAssert(err == nil, "write succeeds")
-		if e := len(cobs.Encode(frames[i])); e > maxEnc {
+		if e := len(dev.stream) - before - 1; e > maxEnc { // encoded frame incl. its delimiter, without the leading NUL
 			maxEnc = e
 		}
 	}
@@ -97,12 +97,15 @@ func c16Equal(a, b []byte) bool {
 	return true
 }
 
-// HarnessC16Lemma: cobsDecodeInplace(cobs.Encode(p)) == p.
+// HarnessC16Lemma: cobsDecodeInplace(what Write puts on the line for p) == p.
 func HarnessC16Lemma() {
 	n := vChoose(vParam("lemmalen", 4) + 1)
 	p := vBytes(n)
 	orig := append([]byte{}, p...)
-	e := cobs.Encode(p)
+	dev := &c16Dev{}
+	_, werr := NewCobsWrapper(dev, 64).Write(p)
+	vAssert(werr == nil, "write succeeds")
+	e := append([]byte{}, dev.stream[1:]...) // what the writer put on the line, without the leading NUL
 	c, err := cobsDecodeInplace(e)
 	if n == 0 {
 		// an empty payload encodes to {1,0}: too short for the decoder by design
@@ -118,16 +121,23 @@ func HarnessC16Lemma() {
 // c16Frames writes k arbitrary frames of 1..maxLen bytes through the real
 // Write and returns the payloads.
 func c16Frames(cw *CobsWrapper, k, maxLen int) [][]byte {
+	c16EncLens = nil
 	var frames [][]byte
 	for i := 0; i < k; i++ {
 		n := 1 + vChoose(maxLen)
 		p := vBytes(n)
 		frames = append(frames, append([]byte{}, p...))
+		before := len(cw.dev.(*c16Dev).stream)
 		_, err := cw.Write(p)
 		vAssert(err == nil, "write succeeds")
+		c16EncLens = append(c16EncLens, len(cw.dev.(*c16Dev).stream)-before-1)
 	}
 	return frames
 }
+
+// c16EncLens: length of each frame c16Frames wrote as it went on the line
+// (code bytes, payload and delimiter, without the leading NUL).
+var c16EncLens []int
 
 // HarnessC16Clean: every segmentation of a clean stream.
 func HarnessC16Clean() {
@@ -196,7 +206,7 @@ func HarnessC16Damage() {
 	cw := NewCobsWrapper(dev, 64)
 	frames := c16Frames(cw, 2, vParam("flen", 2))
 	// length of the first encoded frame on the wire: leading 0 + code bytes + payload + trailing 0
-	first := 1 + len(cobs.Encode(frames[0]))
+	first := 1 + c16EncLens[0]
 	pos := vChoose(first)
 	kind := vChoose(3)
 	s := dev.stream
@@ -216,10 +226,21 @@ func HarnessC16Damage() {
 	}
 	dev.stream = d
 	// the second frame starts after the delimiter that ends the (damaged)
-	// first frame region; it must be returned intact by one of the next 3 calls
+	// first frame region; it must be returned intact by one of the next 4 calls.
+	// Parameter "tight": the caller's buffer is exactly as large as the longest
+	// undamaged encoded frame, so an inserted byte makes a frame one byte too long.
+	bufLen := 64
+	if vParam("tight", 0) == 1 {
+		bufLen = 0
+		for _, e := range c16EncLens {
+			if e > bufLen {
+				bufLen = e
+			}
+		}
+	}
 	var got [][]byte
 	for call := 0; call < 4; call++ {
-		buf := make([]byte, 64)
+		buf := make([]byte, bufLen)
 		c, err := cw.Read(buf)
 		if err == nil {
 			got = append(got, append([]byte{}, buf[:c]...))
@@ -228,4 +249,32 @@ func HarnessC16Damage() {
 	vAssert(len(got) >= 1 && len(got) <= 3, "damage: the following frame is delivered and nothing is delivered twice")
 	vAssert(c16Equal(got[len(got)-1], frames[1]), "damage: the frame after the damaged one is delivered intact")
 	vCover("damage: done")
+}
+
+// HarnessC16LongRun: frames around the 254-byte block boundary of COBS: a run
+// of 253..255 (parameter "runs": also 507..509) non-zero bytes followed by
+// 0..2 arbitrary bytes goes through the real Write and Read and comes back
+// intact.
+func HarnessC16LongRun() {
+	base := 253
+	if vParam("runs", 1) == 2 && vBool() {
+		base = 507
+	}
+	run := base + vChoose(3)
+	tail := vChoose(vParam("tail", 2) + 1)
+	p := vBytes(run + tail)
+	for i := 0; i < run; i++ {
+		vAssume(p[i] != 0)
+	}
+	orig := append([]byte{}, p...)
+	dev := &c16Dev{maxCut: 0}
+	cw := NewCobsWrapper(dev, 1024)
+	_, err := cw.Write(p)
+	vAssert(err == nil, "write succeeds")
+	buf := make([]byte, 1024)
+	c, err := cw.Read(buf)
+	vAssert(err == nil, "long run: Read returns no error")
+	vAssert(c == len(orig), "long run: the frame comes back with its length")
+	vAssert(c16Equal(buf[:c], orig), "long run: the frame written is returned intact")
+	vCover("long run: done")
 }
